@@ -127,7 +127,7 @@ def record_random(lab, rng, nevals, nfaulty):
         try:
             v = ds({"X": k})
             events.extend(log[n0:])
-            events.append({"a": "Return", "k": k, "v": v, "runs": len(runs)})
+            events.append({"a": "Return", "k": k, "v": v if isinstance(v, str) else "PY:" + repr(v), "runs": len(runs)})
         except Exception as e:  # noqa
             events.extend(log[n0:])
             events.append({"a": "Raised", "k": k, "v": type(e).__name__, "runs": len(runs)})
